@@ -107,6 +107,11 @@ def run_narrowing(ck, F):
 
 def run(ck, tier):
     F = factsmod.Facts("ws")
+    from . import influence as _infl
+    _infl.run(ck, F, 'C13')
+    from . import c13x
+    c13x.run_bounds(ck, F)
+    c13x.run_narrowing(ck, F)
     ck.rule("C13.can-cast-implies-cast", "for every ordered pair of DataType constructors: can_cast_types definitely true => cast_with_options reaches an "
             "implementation arm (not the 'Casting from .. to .. not supported' arm)", floor=700)
     variants = dtm.enum_variants(F, "arrow_schema::datatype::DataType")
